@@ -94,9 +94,9 @@ def validate(teal: str, version: int, mode: str, stack: bool = True):
         if e >= n:
             probs.append("entry label at end of program")
             continue
-        seen, stack = set(), [e]
-        while stack:
-            i = stack.pop()
+        seen, todo = set(), [e]
+        while todo:
+            i = todo.pop()
             if i in seen:
                 continue
             seen.add(i)
@@ -107,7 +107,7 @@ def validate(teal: str, version: int, mode: str, stack: bool = True):
                     probs.append(f"line {ops[i][2]}: falls through into subroutine at line {ops[j][2]}")
                     continue
                 else:
-                    stack.append(j)
+                    todo.append(j)
     if probs:
         return probs
     # ---- stack heights and types -----------------------------------------------------------------------
@@ -295,3 +295,26 @@ def stack_check(prog, sub_targets):
         if proto is not None and mn < -proto[0]:
             probs.append(f"subroutine at line {ops[t][2]} reaches {-mn} below its frame but declares {proto[0]} argument(s)")
     return sorted(set(probs))
+
+
+def _canary():
+    """Vacuity guard, run at import: programs that break each clause must be reported (a validator that reports nothing proves nothing)."""
+    bad = {
+        "type": '#pragma version 10\nbyte "a"\nint 1\n+\nreturn\n',
+        "return-type": '#pragma version 10\nbyte "a"\nreturn\n',
+        "underflow": "#pragma version 10\nint 1\n+\nreturn\n",
+        "join-height": "#pragma version 10\nint 1\nbz l\nint 2\nl:\nint 1\nreturn\n",
+        "fallthrough": "#pragma version 10\nint 1\n",
+        "imm": "#pragma version 10\nint 1\nstore 256\nint 1\nreturn\n",
+        "version": "#pragma version 2\nint 1\ngtxns Fee\nreturn\n",
+    }
+    for k, t in bad.items():
+        v = 2 if k == "version" else 10
+        if not validate(t, v, "Application"):
+            raise RuntimeError(f"spec.tealcheck canary {k!r}: a program that breaks the clause is accepted - the validator is vacuous")
+    good = "#pragma version 10\nint 1\nint 2\n+\nreturn\n"
+    if validate(good, 10, "Application"):
+        raise RuntimeError(f"spec.tealcheck canary: a correct program is reported: {validate(good, 10, 'Application')}")
+
+
+_canary()
